@@ -279,12 +279,14 @@ var c14Progs = []string{
 	`BEGIN { print ARGC, ARGV[1], ARGV[2], length(ARGV); SUBSEP = ":"; a[1,2] = 3; for (k in a) print k; print length(u), u1 == 0, u1 == "" } { t[$1]; if (NR == 1) RS = ";" } END { print length(t), x, NR; print FNR, FILENAME }`,
 	`BEGIN { if (ENVIRON["K"] == "err") { getline; $5 = "e"; NF = 7; while (i++ < 3) for (k in ENVIRON) if (i == 2) print substr("x", 1, 1/zero) } } { $2 = "c"; print; print NF } END { print $0, NF, NR }`,
 	`BEGIN { printf "%s", "" > "/dev/stderr"; if (ENVIRON["K"] == "mode") { RS = ""; FS = "x" } } { n += NF; last = $NF } END { print n, last, RT == "\n", length(RT) }`,
+	// input mode switched at run time after the main scanner exists (G14-1: csvFields of an earlier run)
+	`BEGIN { if (ENVIRON["K"] == "mode") { getline line; INPUTMODE = "csv" } } $1 == "boom" { INPUTMODE = "tsv" } { print NF, $1 } END { print INPUTMODE "|" NR }`,
 }
 
 // which programs touch the file system / run commands (kept rarer: slower)
 // program 9 runs commands: what a child process does with the shared stdin and when its output arrives is scheduling, not
 // interpreter state, so it is only used in the serial corpus (empty stdin), never in the parallel random histories
-var c14ProgWeight = []int{6, 8, 5, 6, 4, 1, 5, 6, 8, 0, 1, 5, 5, 4}
+var c14ProgWeight = []int{6, 8, 5, 6, 4, 1, 5, 6, 8, 0, 1, 5, 5, 4, 8}
 
 var c14Inputs = []string{"", "1 2\n3 4\n", "a,b\n1,2\nboom,x\n", "deep 1\nq r s\n", "b,a\n\"x y\",2\n", "5\n6\n7\n",
 	"start\nmid x\nstop\nafter\n", "boom\n1\n", "a;b;c\n\nd\n\n\ne x f\n"}
@@ -534,7 +536,34 @@ func c14Same(a, b c14Out) bool {
 }
 
 // c14Classify names the known-finding class of a failing case ("" = none; F18 is fixed and must not reappear).
-func c14Classify(cs c14Case, reused, fresh c14Out) string { return "" }
+//
+// G14-1: the program assigns INPUTMODE at run time, and the difference disappears when no earlier run ever scanned a row
+// (all history inputs emptied, everything else kept): what leaks is csvFields, the row a csvSplitter of an earlier run left.
+func c14Classify(cs c14Case, reused, fresh c14Out) string {
+	if !strings.Contains(cs.Prog, "INPUTMODE =") || len(cs.History) == 0 {
+		return ""
+	}
+	cf := cs
+	cf.History = nil
+	for _, h := range cs.History {
+		h.Input = ""
+		cf.History = append(cf.History, h)
+	}
+	re := c14NewInterp(cf.Prog, true)
+	defer re.cleanup()
+	for _, h := range cf.History {
+		re.run(h)
+		re.wipe()
+	}
+	if cf.Reset {
+		re.in.ResetVars()
+		re.in.ResetRand()
+	}
+	if c14Same(re.run(cf.Probe), fresh) {
+		return "G14-1"
+	}
+	return ""
+}
 
 type c14Verdict struct {
 	fail   *vh.Failure
@@ -628,6 +657,11 @@ func runC14(c *vh.Ctx) {
 		{Prog: `BEGIN { if (ENVIRON["K"] == "mode") INPUTMODE = "csv header" } { print NF, $1 } END { print INPUTMODE "|" }`,
 			History: []c14Run{{Entry: "exec", Input: "a,b\n1,2\n", Env: []string{"K", "mode"}}}, Reset: false, Probe: c14Run{Entry: "exec", Input: "a,b\n", Env: []string{"K", ""}}}, // ENVIRON is an array: K must be overwritten
 	}
+	// G14-1 (c7bccbd): csvFields of an earlier CSV run is installed as the fields of a record read by a non-CSV scanner
+	corpus = append(corpus, c14Case{
+		Prog:    `BEGIN { if (ENVIRON["K"] == "switch") { getline line; INPUTMODE = "csv" } } { print NF, $1 }`,
+		History: []c14Run{{Entry: "exec", Input: "a,b,c\n", InputMode: 1, Env: []string{"K", ""}}}, Reset: true,
+		Probe:   c14Run{Entry: "exec", Input: "x\ny z\n", Env: []string{"K", "switch"}}})
 	cmdRun := func(entry, k string, noExec bool) c14Run {
 		return c14Run{Entry: entry, Input: "", Env: []string{"K", k}, NoExec: noExec}
 	}
